@@ -37,6 +37,7 @@ type fnInfo struct {
 	n     int
 	intr  intrinsic
 	isAPI bool
+	free  [][]value // recycled register files (never cleared: SSA values are defined before use)
 }
 
 type frame struct {
@@ -95,10 +96,7 @@ func (fr *frame) get(key ssa.Value) value {
 	case *ssa.Const:
 		return constValue(key)
 	case *ssa.Global:
-		if r, ok := fr.m.globals[key]; ok {
-			return r
-		}
-		panic("symgo: unknown global " + key.String())
+		return fr.m.global(key)
 	}
 	if i, ok := fr.info.idx[key]; ok {
 		return fr.env[i]
@@ -426,7 +424,18 @@ func callSSA(m *Machine, caller *frame, callpos token.Pos, fn *ssa.Function, arg
 	}
 	defer func() { m.depth-- }()
 
-	fr.env = make([]value, info.n)
+	if k := len(info.free); k > 0 {
+		fr.env = info.free[k-1]
+		info.free = info.free[:k-1]
+	} else {
+		fr.env = make([]value, info.n)
+	}
+	defer func() {
+		if len(info.free) < 8 {
+			info.free = append(info.free, fr.env)
+		}
+		fr.env = nil
+	}()
 	fr.block = fn.Blocks[0]
 	fr.locals = make([]value, len(fn.Locals))
 	for i, l := range fn.Locals {
@@ -581,4 +590,13 @@ func DumpProfile() {
 		}
 		fmt.Fprintf(os.Stderr, "%10d %s\n", e.v, e.k)
 	}
+}
+
+func (m *Machine) global(g *ssa.Global) *value {
+	if r, ok := m.globals[g]; ok {
+		return r
+	}
+	cell := zero(deref(g.Type()))
+	m.globals[g] = &cell
+	return &cell
 }
